@@ -22,7 +22,14 @@ def run_playback(rec):
         raise Undecided("no playback test in replay record")
     tname = m.group(1)
     hname = rec["obligation"].split("::")[-1]
-    scratch = core.scratch_root()
+    import fcntl
+    base = os.path.join(os.environ.get("VERIF_SCRATCH", "/var/tmp"), "p2sh-verif-kani")
+    os.makedirs(base, exist_ok=True)
+    scratch = os.path.join(base, "playback")
+    lockf = open(scratch + ".lock", "w")
+    fcntl.flock(lockf, fcntl.LOCK_EX)
+    shutil.rmtree(scratch, ignore_errors=True)
+    os.makedirs(scratch)
     try:
         u = kani.KaniUnit(spec)
         dst = u.prepare(scratch)
@@ -54,6 +61,8 @@ def run_playback(rec):
         raise Undecided("playback did not run: " + out[-1500:])
     finally:
         shutil.rmtree(scratch, ignore_errors=True)
+        fcntl.flock(lockf, fcntl.LOCK_UN)
+        lockf.close()
 
 
 def replay(pid, path):
